@@ -56,9 +56,9 @@ def crossratio(
 
     # positions of a collection where a and b coincide have cross ratio 1 as well
     equal = None
-    if a.free_indices > 0 and a.shape == b.shape:
-        axes = tuple(range(a.free_indices, a.rank))
-        equal = is_multiple(a.array, b.array, axis=axes, rtol=EQ_TOL_REL, atol=EQ_TOL_ABS)
+    if (a.free_indices > 0 or b.free_indices > 0) and a.tensor_shape == b.tensor_shape:
+        axes = tuple(range(a.free_indices - a.rank, 0))
+        equal = is_multiple(*np.broadcast_arrays(a.array, b.array), axis=axes, rtol=EQ_TOL_REL, atol=EQ_TOL_ABS)
 
     if (
         isinstance(a, LineTensor)
